@@ -253,9 +253,18 @@ func (c *tunnelChannel) Invoke(ctx context.Context, methodName string, req, resp
 		return err
 	}
 	if err := str.SendMsg(req); err != nil {
-		return err
-	}
-	if err := str.CloseSend(); err != nil {
+		// If the RPC has already been finished by the server (the handler
+		// returned without consuming the request), its status is the outcome
+		// of the call, not the failure to send the rest of the request.
+		doneErr := str.loadDone()
+		if doneErr == nil {
+			return err
+		}
+		if doneErr != io.EOF {
+			return doneErr
+		}
+		// finished successfully: go on and read the response
+	} else if err := str.CloseSend(); err != nil && str.loadDone() != io.EOF {
 		return err
 	}
 	err = str.RecvMsg(resp)
